@@ -317,7 +317,9 @@ func writeStr(s string, b *strings.Builder, isKey bool) {
 		// Quote empty strings or that contain special characters.
 		// We cannot use strconv.Quote because we only want to escape " characters,
 		// but not \n, \t, etc.
-		escapedStr := strings.ReplaceAll(s, `"`, `\"`)
+		// The backslash is the escape character of quoted SNBT strings: escape it first.
+		escapedStr := strings.ReplaceAll(s, `\`, `\\`)
+		escapedStr = strings.ReplaceAll(escapedStr, `"`, `\"`)
 		b.WriteString(`"` + escapedStr + `"`)
 	}
 }
